@@ -276,6 +276,60 @@ func fnOfValue(v ssa.Value) *ssa.Function {
 	return nil
 }
 
+// writesTo: the position of an instruction in fn (or in what it calls, depth calls deep) that stores into a field of the
+// struct behind owner, or updates / deletes from a map held in such a field; "" if there is none
+func writesTo(fn *ssa.Function, owner types.Type, depth int, seen map[*ssa.Function]bool) string {
+	if fn == nil || seen[fn] || len(fn.Blocks) == 0 {
+		return ""
+	}
+	seen[fn] = true
+	ofOwner := func(v ssa.Value) bool {
+		for i := 0; i < 4 && v != nil; i++ {
+			switch x := v.(type) {
+			case *ssa.FieldAddr:
+				return types.Identical(x.X.Type(), owner)
+			case *ssa.UnOp:
+				v = x.X
+			case *ssa.Field:
+				v = x.X
+			default:
+				return false
+			}
+		}
+		return false
+	}
+	for _, b := range fn.Blocks {
+		for _, ins := range b.Instrs {
+			switch x := ins.(type) {
+			case *ssa.MapUpdate:
+				if ofOwner(x.Map) {
+					return posStr(x.Pos())
+				}
+			case *ssa.Store:
+				if ofOwner(x.Addr) {
+					return posStr(x.Pos())
+				}
+			case ssa.CallInstruction:
+				c := x.Common()
+				if bi, ok := c.Value.(*ssa.Builtin); ok {
+					if bi.Name() == "delete" && len(c.Args) > 0 && ofOwner(c.Args[0]) {
+						return posStr(ins.Pos())
+					}
+					continue
+				}
+				if depth > 0 {
+					for _, cal := range resolve(c) {
+						if w := writesTo(cal, owner, depth-1, seen); w != "" {
+							return w
+						}
+					}
+				}
+			}
+		}
+	}
+	return ""
+}
+
 func mutexOp(c *ssa.CallCommon) (op string, id string) {
 	f := c.StaticCallee()
 	if f == nil || f.Pkg == nil || f.Pkg.Pkg.Path() != "sync" || len(c.Args) == 0 {
@@ -901,6 +955,31 @@ func main() {
 				if !def[m] && !done[m] {
 					done[m] = true
 					enc.Encode(map[string]interface{}{"ev": "Leak", "mu": m, "fn": fname(fn), "pos": posStr(s.pos)})
+				}
+			}
+		}
+	}
+	// 4b. a write to the struct that owns a mutex, by a function that holds that mutex in READ mode (or by what it calls,
+	// three calls deep): the design has exclusive locks only; a shared lock is sound only over pure reads
+	for _, fn := range fns {
+		for _, b := range fn.Blocks {
+			for _, ins := range b.Instrs {
+				ci, ok := ins.(ssa.CallInstruction)
+				if !ok {
+					continue
+				}
+				c := ci.Common()
+				sc := c.StaticCallee()
+				if sc == nil || sc.Pkg == nil || sc.Pkg.Pkg.Path() != "sync" || sc.Name() != "RLock" || len(c.Args) == 0 {
+					continue
+				}
+				fa, ok := c.Args[0].(*ssa.FieldAddr)
+				if !ok {
+					continue
+				}
+				owner := fa.X.Type()
+				if w := writesTo(fn, owner, 3, map[*ssa.Function]bool{}); w != "" {
+					enc.Encode(map[string]interface{}{"ev": "RWrite", "mu": fieldId(c.Args[0]), "fn": fname(fn), "pos": posStr(ins.Pos()), "write": w})
 				}
 			}
 		}
